@@ -116,7 +116,12 @@ fn worlds(thorough: bool) -> Vec<W> {
     eve.push(Op::Epoch(1));
     let mut eve_laden = roots[2].1.clone();
     eve_laden.extend_from_slice(&eve[roots[1].1.len()..]);
-    let sched_roots: Vec<(&'static str, Vec<Op>)> = vec![("fee-change-pending", eve), ("fee-change-pending-fee-laden", eve_laden)];
+    // ... and a pending REMOVAL of the fee (the newer schedule charges nothing, the older one is still in force)
+    let mut removal = roots[1].1.clone();
+    removal.push(Op::SetTransferFee { a: true, bps: 0, max: 0 });
+    removal.push(Op::SetTransferFee { a: false, bps: 0, max: 0 });
+    removal.push(Op::Epoch(1));
+    let sched_roots: Vec<(&'static str, Vec<Op>)> = vec![("fee-change-pending", eve), ("fee-change-pending-fee-laden", eve_laden), ("fee-removal-pending", removal)];
     v.push(mk("c16-t22-sched", Fee { bps: 100, max: 5_000 }, Fee { bps: 5_000, max: u64::MAX }, &sched_roots));
     if thorough {
         v.push(mk("c16-t22-0-9999", Fee { bps: 0, max: 0 }, Fee { bps: 9_999, max: 123_456 }, &roots[..4]));
